@@ -62,6 +62,7 @@ func runC05(c *Check, a *Analysis) {
 	ruleSchedNil(c, a, "R-SCHED-NIL")
 	ruleExecQueueAfterWait(c, a, "R-EXEC-QUEUE-AFTER-WAIT")
 	ruleQueueConfig(c, a, "R-QUEUE-CONFIG")
+	ruleQueuePerConn(c, a, "R-QUEUE-PER-CONN")
 	ruleDecodeRouteConstant(c, a, "R-DECODE-ROUTE")
 	ruleInlineReplies(c, a, "R-INLINE-REPLIES")
 	ruleQuiesceBeforeClose(c, a, "R-QUIESCE-BEFORE-CLOSE")
